@@ -7,6 +7,7 @@ import io
 import os
 from fractions import Fraction as Fr
 
+from perception_eval.common.label import AutowareLabel, Label
 from perception_eval.config import PerceptionEvaluationConfig
 from perception_eval.evaluation.matching import MatchingMode
 from perception_eval.evaluation.result.perception_frame_config import CriticalObjectFilterConfig, PerceptionPassFailConfig
@@ -42,7 +43,7 @@ OPS = [(k, kind, c) for k in range(3) for kind in KINDS for c in ("wide", "narro
 N18 = len(OPS)
 OPS += [(k, kind, c) for k in range(3) for kind in KINDS_X for c in ("wide", "narrow")]   # indices >= N18: extended alphabet
 WORLDS = {"det": ("detection", "base_link"), "trk": ("tracking", "map")}
-CFG = {"target_labels": ["car", "pedestrian"], "max_x_position": 100.0, "max_y_position": 100.0, "min_point_numbers": [0, 0],
+CFG = {"target_labels": ["car", "pedestrian"], "allow_matching_unknown": True, "max_x_position": 100.0, "max_y_position": 100.0, "min_point_numbers": [0, 0],
        "label_prefix": "autoware", "center_distance_thresholds": [[1.0, 1.0], [0.3, 2.0]], "plane_distance_thresholds": [1.0],
        "iou_2d_thresholds": [0.3], "iou_3d_thresholds": [0.3]}
 _W = {}
@@ -165,6 +166,9 @@ class World:
         if kind == "missing":
             e = copy.deepcopy(self.pristine[k][0])
             e.uuid = "extra"
+            # the extra estimate carries the label unknown (not a target label; the configuration lets it match any ground truth): a
+            # pair it forms counts for its ground truth's label, at frame level and in the pooled scene alike
+            e.semantic_label = Label(AutowareLabel.UNKNOWN, "unknown", [])
             e.semantic_score = 0.33 + 0.01 * k - salt
             p = e.state.position
             e.state.position = (p[0] + 2.5, p[1] + 2.5, p[2])
